@@ -542,9 +542,18 @@ func (e *Engine) emitGreedy(p *partition, survivors *[]*run) []map[string]any {
 	for _, r := range *survivors {
 		active[r.startSeq] = true
 	}
+	// Leftmost-first: a pending match may only be emitted once no run that started at or
+	// before it is still alive — an earlier start that completes later takes precedence
+	// (and, under SKIP PAST LAST ROW, invalidates the later start altogether).
+	var minActive int64 = maxInt64
+	for _, r := range *survivors {
+		if r.startSeq < minActive {
+			minActive = r.startSeq
+		}
+	}
 	var ready []int64
 	for s := range p.pending {
-		if !active[s] && s >= p.nextStart {
+		if !active[s] && s >= p.nextStart && s < minActive {
 			ready = append(ready, s)
 		}
 	}
